@@ -352,6 +352,45 @@ def check_times(ctx):
             "`begin_time < 0` returns before any element is created or timed", "subtitles that begin before the programme start are no longer dropped before the model is written")
 
 
+def check_span_styles(ctx):
+  """FIN-span: a span opened while underline and / or italics are active carries each of them,
+  independently of the other (all four combinations are evaluated)."""
+  from ..rules import fineval, match
+  ix = ctx.ix
+  f = ix.func("ttconv.stl.tf:_Context.start_span")
+  ctx.unit(f.module)
+  body = match.replace_exprs(f.node.body, {"self.get_underline()": "__u", "self.get_italic()": "__i", "self.span is None": "__new", "self.span": "__span"})
+  wrong, n = [], 0
+  for u in (False, True):
+    for i in (False, True):
+      eff = fineval.collect(ix, f, body, {"__u": u, "__i": i, "__new": True}, "__span")
+      props = {str(a[0]).split(".")[-1].split(":")[0] for name, a, _ in eff.calls if name == "set_style" and a}
+      n += 1
+      got = ("TextDecoration" in props, "FontStyle" in props)
+      if got != (u, i):
+        wrong.append(f"underline={u}, italics={i}: span gets TextDecoration={got[0]}, FontStyle={got[1]}")
+      if not {"Color", "BackgroundColor"} <= props:
+        wrong.append(f"underline={u}, italics={i}: colours not applied ({sorted(props)})")
+  ctx.check(not wrong, "FIN-span", f"{f.qualname}|underline and italics are applied independently", ctx.where(f.module, f.node), f"{n} combinations", "; ".join(wrong[:4]))
+
+
+def check_tcp_fields(ctx):
+  """TAB-tcp: the GSI Time Code: Start-of-Programme field is HHMMSSFF - four two-character fields, in that order."""
+  ix = ctx.ix
+  f = ix.func("ttconv.stl.datafile:DataFile.__init__")
+  ctx.unit(f.module)
+  ce = ConstEval(ix)
+  sl = []
+  for n in own_nodes(f.node):
+    if isinstance(n, ast.Subscript) and unparse(n.value).endswith(".TCP") and isinstance(n.slice, ast.Slice):
+      sl.append((ce.try_ev(f.module, n.slice.lower) if n.slice.lower is not None else 0, ce.try_ev(f.module, n.slice.upper) if n.slice.upper is not None else None, n))
+  if not sl:
+    raise AnalysisError("DataFile.__init__: no slices of the TCP field found")
+  got = [(a, b) for a, b, _ in sorted(sl, key=lambda t: (t[2].lineno, t[2].col_offset))]
+  ctx.check(got == [(0, 2), (2, 4), (4, 6), (6, 8)], "TAB-tcp", f"{f.qualname}|TCP = HH MM SS FF", ctx.where(f.module, sl[0][2]), f"slices {got}",
+            f"the TCP field is read with the slices {got}; EBU Tech 3264 defines HHMMSSFF = [0:2], [2:4], [4:6], [6:8]")
+
+
 def run(ctx):
   ix = ctx.ix
   check_tables(ctx)
@@ -376,4 +415,6 @@ def run(ctx):
   nd = defs.check_def_init(ctx, [ix.cls("ttconv.stl.datafile:DataFile"), ix.cls("ttconv.stl.tf:_Context"), ix.cls("ttconv.stl.tf:_TextFieldIterator")], rule="DEF-init")
   ctx.floor("DEF-init", "instance attributes of the STL classes", nd, 8)
   defs.check_def_local(ctx, fs, rule="DEF-local", exempt=common.DEF_EXEMPT)
+  check_span_styles(ctx)
+  check_tcp_fields(ctx)
   common.check_history_independence(ctx, [n for n in ctx.ix.modules if n.startswith("ttconv.stl")] + ["ttconv.time_code"])
